@@ -21,3 +21,4 @@ CONSTANTS
  Dev_UidCollision = FALSE
  BottomUp = FALSE
  Dev_UidSubtreeUnchecked = FALSE
+ Dev_TopKeepsParent = FALSE
